@@ -31,9 +31,12 @@ PROPS["C04"] = dict(
     level_text="The batching loop with its limiter chain is model-checked against the declarative limits (lossless, within -n/-L/-s, maximal, "
                "empty-input and oversize rules) over all small argument sequences and option combinations; the real xargs binary is driven "
                "with every such input (recorder command logs each argv) and with seeded random inputs up to thousands of arguments whose "
-               "recorded invocations TLC checks against the reference outcomes.",
-    level_note="Trusted: TLC, the recorder command, the synthesis of stdin from (length, line-end) sequences. The operating system's own budget is "
-               "outside this check (C06); inputs stay far below it. Bounds in spec/mc/MC_C04_*.cfg.",
+               "recorded invocations TLC checks against the reference outcomes. Whole runs (real input bytes, -0/-d, outcome scripts) are validated against "
+               "the composed specification XargsSem. Event-level: the binary built with the verification hook logs every step of the loop (limiter "
+               "counters after each accepted argument, dispatches, exit status) and TLC steps the implementation-shaped machines XargsBatchImpl + "
+               "XargsExec along the events, with the system budget derived from KernelExec for the run's stack limit and environment.",
+    level_note="Trusted: TLC, the recorder command, the synthesis of stdin from (length, line-end) sequences. The operating system's total budget is "
+               "C06's subject; of the system's rules only the limit on a single argument string takes part here. Bounds in spec/mc/MC_C04_*.cfg.",
     mc=[dict(module="mc/MC_C04.tla", cfg=dict(quick="mc/MC_C04_quick.cfg", thorough="mc/MC_C04_thorough.cfg"), workers=12)],
     record=dict(quick=700, thorough=12000),
     selftest=dict(quick=40, thorough=200),
@@ -194,11 +197,12 @@ PROPS["C14"] = dict(
                "enumerates every unit x operand x file sizes k*unit-1, k*unit, k*unit+1 (symbolic beyond 2^31) and numerals near 2^63/2^64, checks the "
                "property's own sentences as invariants (exactly one of the three forms per file, monotonicity, -size -1<unit> only empty files, "
                "-size 1M = 1..2^20 bytes, rounding up) and prints which files each form selects; the real find is run on sparse files of exactly those "
-               "sizes (and on files with given link counts and owner ids); random operands and sizes, and inode numbers as the file system assigns "
-               "them, are validated by TLC.",
+               "sizes (and on files with given link counts and owner ids, and - for the time tests - ages from two periods in the future to three in "
+               "the past under an injected clock); random operands and sizes, and inode numbers as the file system assigns them, are validated by TLC. "
+               "The same sentences are proved for ALL operands and sizes with TLAPS (spec/proofs/NumericLaws.tla, 243 obligations, SMT).",
     level_note="Trusted: TLC; the harness's creation of sparse files / hard links / chown and its reading back of inode numbers. TLC integers are 32 bit: "
                "sizes are k*unit+d symbolically or below 2^31 bytes; operands at 2^63-1, 2^63, 2^64-1 stand for 'larger than anything'. Numerals of "
-               "2^64 and above are left to C11. The time tests' operands are judged in C15.",
+               "2^64 and above are left to C11. What the time tests measure is C15's subject; here only how N, +N, -N are read. TLAPS/SMT is trusted for the proofs.",
     # the same laws for all operands and all sizes: TLAPS (SMT back end), see spec/proofs/NumericLaws.tla
     proofs=[dict(module="proofs/NumericLaws.tla")],
     mc=[dict(module="mc/MC_Num.tla", cfg=dict(quick="mc/MC_Num_quick.cfg", thorough="mc/MC_Num_thorough.cfg"), workers=4)],
@@ -416,14 +420,21 @@ PROPS["C02"] = _walk("C02",
     "The reference walk (which entries, at which depth, under -P/-H/-L, with cycle and dangling-link rules) is a TLA+ function; TLC enumerates every "
     "tree up to N nodes x follow mode x every (mindepth, maxdepth) pair incl. min > max x -depth, checks the laws (range, exactly-once, physical "
     "completeness, -H = -P below the starting point, dangling links visited) and prints each case; the harness materialises the tree and runs the real "
-    "find on it; random trees up to 40 nodes with link cycles, several starting points and unsorted runs are validated by TLC.",
+    "find on it; random trees up to 40 nodes with link cycles, link farms, several starting points and unsorted runs are validated by TLC. "
+    "Event-level: the library built with the verification hook logs every entry the walk loop hands to the expression, every walk error and "
+    "every skip_current_dir(); TLC steps the implementation-shaped machine FindWalkImpl (walkdir's iterator driven by process_dir, "
+    "model-checked against the reference walk in MC_WalkImpl under C03) along the logged events.",
     "MC: all trees up to N nodes over 2 names, kinds {dir, file, link -> earlier non-link | dangling} x {P,H,L} x min 0..3 x max {0,1,2,none} x -depth; "
     "trace: random trees (1..40 nodes), spelling variants of starting points, -follow/-P/-H/-L, sorted and unsorted (multiset + pre/post-order).",
     500, 12000)
 PROPS["C03"] = _walk("C03",
     "Same reference walk with -prune and -depth: TLC enumerates every tree up to N nodes x every set of at most two pruned directories x -depth on/off "
     "x depth ranges, checks that pruning removes exactly the strict descendants (in place) and is a no-op under -depth, pre-/post-order; each case is "
-    "replayed on the real find with -sorted (exact sequence), with the prune test at three different places of the expression; random larger cases via TLC.",
+    "replayed on the real find with -sorted (exact sequence), with the prune test at three different places of the expression; random larger cases via TLC, "
+    "also with a file system mounted on a pruned directory under -xdev. The mechanism itself - walkdir's stack of open directories, the "
+    "directories deferred under -depth, skip_current_dir() after -prune - is a second TLA+ machine (FindWalkImpl) that TLC checks against the "
+    "reference on every small tree x mode x range x -depth x prune x unreadable directory / mount point (two named deviations = the open "
+    "findings), and that is bound to the code by event-level trace validation of the walk loop (hook: Eval / Err / Skip / Done events).",
     "MC: all trees up to N nodes x {P,L} x subsets (<= 2) of directory paths pruned x -depth x 2 depth ranges, -sorted; "
     "trace: random trees with random prune sets, three expression shapes, sorted and unsorted.",
     500, 12000)
@@ -431,7 +442,8 @@ PROPS["C18"] = _walk("C18",
     "Starting points: TLC enumerates lists of one or two starting points (every top-level node in three spellings, plus a missing one) x {P,H} x depth "
     "ranges, both as operands and through -files0-from, and prints the prescribed output (paths begin with the spelling as given, order of operands, "
     "missing operand -> diagnostic + non-zero exit, others still processed); replayed on the real find; random cases (./x, x/, x//, ../w/x, .//x, duplicates, "
-    "with or without final NUL) validated by TLC.",
+    "with or without final NUL, '.' implied by giving no starting point, names beginning with '-' or containing a newline in the list) validated by TLC; "
+    "event-level traces of the walk loop over several starting points (FindWalkImpl, see C03) incl. ones that do not exist.",
     "MC: all trees up to N nodes x lists of <= 2 starting points over spellings {x, ./x, x/} and a missing name x operands vs -files0-from; "
     "trace: random trees, 1..3 starting points, 6 spellings, missing names, -files0-from with/without final NUL.",
     500, 12000)
